@@ -177,6 +177,8 @@ func (g *typeGen) structType(depth int) reflect.Type {
 			jsonName = fmt.Sprintf("f_%d", i)
 		case 3:
 			jsonName = fmt.Sprintf("Name%d", i)
+		case 4:
+			jsonName = fmt.Sprintf("_u%d", i) // a leading underscore is a legal Avro name
 		}
 		// Avro names are case-sensitive: now and then a field is named like its predecessor in another case
 		if i > 0 && g.rng.Intn(8) == 0 {
@@ -204,8 +206,11 @@ func (g *typeGen) structType(depth int) reflect.Type {
 		}
 		if canOmit && g.rng.Intn(3) == 0 {
 			opts = ",omitempty"
-			if g.rng.Intn(4) == 0 {
+			switch g.rng.Intn(6) {
+			case 0:
 				opts = ",string,omitempty"
+			case 1:
+				opts = ",omitempty,string" // omitempty is an option wherever it stands
 			}
 			g.tag("omitempty")
 		}
